@@ -86,6 +86,10 @@ func scenario(rec *mon.Recorder, c int) {
 	desc := fmt.Sprintf("case=%d nodes=%d", c, nodes)
 	rec.Current(desc)
 	cl := sim.New(sim.Options{Nodes: nodes, Dir: os.Getenv("VERIF_SCRATCH") + fmt.Sprintf("/c14-%d", c), TickEvery: 5 * time.Millisecond, Seed: rec.Seed() + int64(c)})
+	if c%2 == 1 {
+		// a ready-loop that is in the middle of a step when a group is stopped and its log deleted
+		cl.ReadyLoopNoise(uint64(rec.Seed())*31+uint64(c), 8)
+	}
 	defer cl.Close()
 	if err := cl.Start(); err != nil {
 		rec.Inconclusive(desc + ": cluster start: " + err.Error())
